@@ -63,6 +63,19 @@ Definition ns_remove (s : nsstate) (id : str) (from_flag : N) : nsstate :=
        | None => s
        end.
 
+(** set_weak_namespace(id, from_type): ConfigActor / NamingActor tell the actor that a namespace is in
+    use (flag CONFIG = 4 / NAMING = 8); an unknown id is created with its id as name.
+    remove_weak_namespace(id, from_type) = remove_namespace(id, flag) *)
+Definition ns_set_weak (s : nsstate) (id : str) (wflag : N) : nsstate :=
+  if str_is_empty id || str_eqb id NS_PUBLIC then s
+  else match sm_get str_cmp (ns_data s) id with
+       | Some v =>
+           let nf := N.lor (ns_flag v) wflag in
+           if nf =? ns_flag v then s
+           else mkNsS (sm_put str_cmp (ns_data s) id (mkNs (ns_name v) nf)) (ns_order s) (ns_already s)
+       | None => mkNsS (sm_put str_cmp (ns_data s) id (mkNs id wflag)) (ns_order s ++ [id]) (ns_already s)
+       end.
+
 Inductive nsreq :=
 | NsAddOnly (p : nsparam) | NsUpdate (p : nsparam) | NsSet (p : nsparam) | NsDelete (id : str)
 | NsInit (items : list nsparam).    (* InitFromOldValue, the JSON already parsed *)
